@@ -923,6 +923,25 @@ func genC03(ctx *hx.Ctx, emit func(hx.Case)) {
 			c03Emit(emit, k, format, d, false)
 		}
 	}
+	// 1b. the post-processing of Schema.UnmarshalJSON: every format × example shape, flat and nested
+	sk := c03ByName["kind:openapi3.Schema"]
+	for _, f := range []any{"date", "date-time", "datetime", "Date", "time", "", nil} {
+		for _, e := range []any{"2020-01-02T00:00:00Z", "2020-01-02T00:00:00ZT00:00:00Z", "T00:00:00Z", "2020-01-02T00:00:00z", "2020-01-02", "", 5, nil, []any{"2020-01-02T00:00:00Z"}} {
+			for i, format := range c03AllFormats {
+				d := map[string]any{"type": "string"}
+				if f != nil {
+					d["format"] = f
+				}
+				if e != nil {
+					d["example"] = e
+				}
+				c03Emit(emit, sk, format, d, false)
+				if i == 0 || ctx.Thorough() {
+					c03Emit(emit, sk, format, map[string]any{"items": d, "default": e}, false)
+				}
+			}
+		}
+	}
 	// 2. random nested documents of every kind
 	n := 60
 	if ctx.Thorough() {
